@@ -6,6 +6,7 @@ import sys
 import traceback
 
 CHECKS = {
+    "C01": ("harness.checks.vlogfam", "model_checking"),
     "C02": ("harness.checks.namer", "model_checking"),
     "C03": ("harness.checks.streamfam", "model_checking"),
     "C04": ("harness.checks.streamfam", "model_checking"),
